@@ -250,8 +250,32 @@ class ImpTr(Tr):
         return key
 
     # ---- expressions ----
+    def path_of(self, e):
+        """dotted rendering of field / index / path expressions, e.g. self.frame.filter_level, self.ref_delta[0], LumaMode::B"""
+        k = e[0]
+        if k == 'var':
+            return e[1]
+        if k == 'path':
+            return '::'.join(e[1])
+        if k == 'fieldname':
+            b = self.path_of(e[1])
+            return None if b is None else '%s.%s' % (b, e[2])
+        if k == 'index':
+            b = self.path_of(e[1])
+            if b is None or e[2][0] != 'lit':
+                return None
+            return '%s[%d]' % (b, e[2][1])
+        return None
+
     def expr(self, e, env, want=None):
         k = e[0]
+        if k in ('fieldname', 'index', 'path') and getattr(self, 'fields', None):
+            pth = self.path_of(e)
+            if pth in self.fields:
+                f = self.fields[pth]
+                if f[0] == 'const':
+                    return zlit(f[1]), f[2], []
+                return f[0], f[1], []
         if k == 'index' and e[1][0] == 'var' and isinstance(env.get(e[1][1]), Arr):
             arr = env[e[1][1]]
             key = self.cell_key(arr, e[2], env)
@@ -649,9 +673,21 @@ def translate_imp(src, kd, ctx, kernels):
             syms |= {a[2], a[3]}
     while ptoks.peek()[0] != 'eof':
         pname = ptoks.next()[1]
+        if pname == '&':
+            continue
+        if pname == 'self':
+            ptoks.accept(',')
+            continue
         if pname == 'mut':
             pname = ptoks.next()[1]
         ptoks.expect(':')
+        if pname in kd.get('struct_params', ()):
+            depth = 0
+            while ptoks.peek()[0] != 'eof' and not (depth == 0 and ptoks.peek()[1] == ','):
+                v = ptoks.next()[1]
+                depth += (v in '[(<') - (v in '])>')
+            ptoks.accept(',')
+            continue
         if pname in kd['arrays']:
             # skip the type tokens up to the next top-level comma
             depth = 0
@@ -666,9 +702,14 @@ def translate_imp(src, kd, ctx, kernels):
             plist.append((pname, 'sym' if pname in syms else 'scalar', pty))
         ptoks.accept(',')
     rty = Parser(tokenize(ret_src)).parse_type() if ret_src else None
+    tuple_ret = None
     if isinstance(rty, tuple):
-        raise Untranslatable('tuple return')
+        if rty[0] != 'tuple' or kd.get('mutates'):
+            raise Untranslatable('unsupported return type')
+        tuple_ret, rty = rty[1], None
     blk = ImpParser(tokenize(body_src)).parse_block()
+    if kd.get('skip_lets'):
+        blk = ('block', [st for st in blk[1] if not (st[0] == 'let' and st[1] in kd['skip_lets'])], blk[2])
     env, args, pre, keys, arrname = {}, [], [], None, None
     for pname, pkind, pty in plist:
         if pkind == 'scalar':
@@ -694,15 +735,39 @@ def translate_imp(src, kd, ctx, kernels):
                 args.append((cells[k], a[1]))
                 pre.append(inrange(a[1], cells[k]))
     tr = ImpTr(ctx, rty, kernels, {})
+    tr.fields = {}
+    for pth, (gn, ty) in kd.get('fields', {}).items():
+        if gn == 'const':
+            tr.fields[pth] = ('const', ty[0], ty[1])
+        else:
+            tr.fields[pth] = (gn, ty)
+            args.append((gn, ty))
+            if ty != 'bool':
+                pre.append(inrange(ty, gn))
     binds, pending = [], []
     init_cells = dict(env[arrname].cells) if arrname else {}
-    val, vty = tr.exec_block(blk, env, binds, pending)
+    if tuple_ret is not None:
+        # the final expression is a tuple of scalars: evaluate the statements, then each component
+        final = blk[2]
+        if final is None or final[0] != 'tuple' or len(final[1]) != len(tuple_ret):
+            raise Untranslatable('tuple-returning kernel must end in a tuple expression')
+        tr.exec_block(('block', blk[1], None), env, binds, pending)
+        comps = []
+        for ce, cty in zip(final[1], tuple_ret):
+            g, gty, c = tr.expr(ce, env, cty)
+            pending += [(len(binds), x) for x in c]
+            comps.append(g)
+        val, vty = None, None
+    else:
+        val, vty = tr.exec_block(blk, env, binds, pending)
     if rty is not None and val is None:
         raise Untranslatable('no return value found')
     outs = None
     if kd['mutates']:
         outs = '[%s]' % '; '.join(env[arrname].cells[k] for k in keys)
-    if rty is not None and outs is not None:
+    if tuple_ret is not None:
+        term, coqret = '[%s]' % '; '.join(comps), 'list Z'
+    elif rty is not None and outs is not None:
         term, coqret = '(%s, %s)' % (val, outs), '(%s * list Z)' % ('bool' if rty == 'bool' else 'Z')
     elif outs is not None:
         term, coqret = outs, 'list Z'
@@ -730,4 +795,17 @@ IMP_KERNELS = [
     dict(file='loop_filter.rs', fn='macroblock_filter', gname='lf_macroblock_filter', arrays=TAPS8, mutates=True),
     dict(file='transform.rs', fn='idct4x4', gname='idct4x4', arrays={'block': ('fixed', 'i32', 16)}, mutates=True),
     dict(file='transform.rs', fn='iwht4x4', gname='iwht4x4', arrays={'block': ('fixed', 'i32', 16)}, mutates=True),
+    # per-macroblock loop-filter parameters: struct fields become parameters; result [filter_level; interior_limit; hev_threshold]
+    dict(file='vp8.rs', fn='calculate_filter_parameters', gname='calculate_filter_parameters', arrays={}, mutates=False,
+         struct_params=['macroblock'], skip_lets=['segment'],
+         fields={'self.frame.filter_level': ('frame_filter_level', 'u8'),
+                 'self.segments_enabled': ('segments_enabled', 'bool'),
+                 'segment.delta_values': ('segment_delta_values', 'bool'),
+                 'segment.loopfilter_level': ('segment_loopfilter_level', 'i8'),
+                 'self.ref_delta[0]': ('ref_delta_0', 'i32'),
+                 'self.mode_delta[0]': ('mode_delta_0', 'i32'),
+                 'macroblock.luma_mode': ('luma_mode', 'i8'),
+                 'LumaMode::B': ('const', (4, 'i8')),
+                 'self.frame.sharpness_level': ('sharpness_level', 'u8'),
+                 'self.frame.keyframe': ('keyframe', 'bool')}),
 ]
